@@ -14,7 +14,33 @@ struct LockstepExec {
   double seg_bits = 0, seg_secs = 0; long seg_frames = 0;
   LockstepExec(Run &r, const char *p) : run(r), prop(p) {}
 
-  void settings_changed() { ms_prev_size = -1; seg_bits = 0; seg_secs = 0; seg_frames = 0; }
+  int seg_mode_mask = 0;
+  void settings_changed() { cvbr_close(); ms_prev_size = -1; seg_bits = 0; seg_secs = 0; seg_frames = 0; seg_mode_mask = 0; seg_warm = 0; }
+  double seg_warm = 0;
+  // constrained VBR: long-term mean rate over a constant-settings segment (>= 5 s after 1 s warm-up)
+  void cvbr_close() {
+    if (!check_rate || seg_secs < 5.0 || !S.enc.alive()) return;
+    double ratio = seg_bits / seg_secs / (double)m_bitrate;
+    const char *fam = seg_mode_mask == 4 ? "celt" : (seg_mode_mask & 4) ? "mixed" : "silkhyb";
+    run.count(std::string("cvbr_segments_") + fam);
+    long milli = (long)(ratio * 1000);
+    std::string k = std::string("max:cvbr_ratio_milli_") + fam;
+    if (run.stat[k] < milli) run.stat[k] = milli;
+    if (getenv("OPSIM_CALIB")) fprintf(stderr, "CVBRSEG %s ratio=%.4f bitrate=%d fs=%d ch=%d frames=%ld secs=%.2f bytes_per_frame=%.1f\n", fam, ratio, m_bitrate, S.enc.L.fs, S.enc.L.ch, seg_frames, seg_secs, m_bitrate * (seg_secs / seg_frames) / 8);
+    double bpf = m_bitrate * (seg_secs / seg_frames) / 8;     // target bytes per frame
+    double tol = cvbr_tolerance(fam, bpf);
+    if (tol < 0) return;                                       // below the calibrated precondition
+    run.count("cvbr_checked");
+    if (ratio > 1.0 + tol)
+      REPORT(run, prop, std::string("cvbr_longterm_rate_exceeded_") + fam, "mean %.0f b/s over %.1f s vs target %d (ratio %.3f > %.3f)", seg_bits / seg_secs, seg_secs, m_bitrate, ratio, 1.0 + tol);
+  }
+  static double cvbr_tolerance(const char *fam, double bpf) {
+    // calibrated on the unchanged tree, see calib/thresholds.json (C05.cvbr): precondition target >= 40 bytes/frame
+    if (bpf < 40) return -1;
+    if (bpf >= 80) return 0.05;
+    if (!strcmp(fam, "celt")) return 0.06;
+    return 0.25;
+  }
 
   void op_ctl(const Op &op) {
     if (!S.enc.alive()) return;
@@ -113,7 +139,14 @@ struct LockstepExec {
       if (!fin) REPORT(run, prop, "dec_nonfinite_output", "replica %zu", i);
       run.api_ok++;
     }
-    if (check_rate) rate_oracle(pkt, ret, expect, max_bytes);
+    if (check_rate) {
+      rate_oracle(pkt, ret, expect, max_bytes);
+      if (L.kind == K_SINGLE && m_vbr && m_cvbr && m_bitrate > 0 && max_bytes >= 1276) {
+        double dur = (double)expect / L.fs;
+        if (seg_warm < 1.0) seg_warm += dur;
+        else { seg_bits += 8.0 * ret; seg_secs += dur; seg_frames++; seg_mode_mask |= 1 << mode; }
+      } else if (seg_secs > 0 || seg_warm > 0) settings_changed();
+    }
     S.pos += expect; S.t48 += (int64_t)expect * 48000 / L.fs;
   }
 
@@ -162,6 +195,7 @@ struct LockstepExec {
       else if (op.k == "CTL") op_ctl(op);
       else if (op.k == "ENC") op_enc(op);
     }
+    cvbr_close();
   }
 };
 
